@@ -24,7 +24,7 @@ from floogen.model.connection import ConnectionDesc
 from floogen.model.link import NarrowWideLink, NarrowWideVCLink, AxiLink
 from floogen.model.network_interface import NarrowWideAxiNI, AxiNI
 from floogen.model.protocol import AXI4, AXI4Bus
-from floogen.utils import clog2, sv_enum_typedef, sv_param_decl
+from floogen.utils import clog2, sv_enum_typedef, sv_param_decl, snake_to_camel
 import floogen.templates
 
 
@@ -599,6 +599,12 @@ class Network(BaseModel):  # pylint: disable=too-many-public-methods
                 "No endpoints found in the network. Use the `only_pkg` flag for package generation."
             )
         self.routing.num_id_bits = clog2(len(self.graph.get_ni_nodes()))
+        # The members of the endpoint enumeration are the CamelCase names of the endpoint instances,
+        # followed by the number of endpoints
+        self.check_identifiers(
+            [ni.render_enum_name() for ni in self.graph.get_ni_nodes()] + ["num_endpoints"],
+            "endpoint enumeration members",
+        )
         match self.routing.route_algo:
             case RouteAlgo.XY:
                 for info, value in self.gen_xy_routing_info().items():
@@ -616,8 +622,23 @@ class Network(BaseModel):  # pylint: disable=too-many-public-methods
         for ni in self.graph.get_ni_nodes():
             ni.routing = self.routing
 
+    @staticmethod
+    def check_identifiers(names, what):
+        """Check that the names stay distinct when rendered as CamelCase identifiers."""
+        identifiers = {}
+        for name in names:
+            identifier = snake_to_camel(name)
+            if identifier in identifiers:
+                raise ValueError(
+                    f"The {what} `{identifiers[identifier]}` and `{name}` "
+                    f"are both rendered as the identifier `{identifier}`"
+                )
+            identifiers[identifier] = name
+
     def gen_router_tables(self):
         """Generate the routing table for the network."""
+        # The tables are declared as the CamelCase names of the routers
+        self.check_identifiers([rt.name + "_map" for rt in self.graph.get_rt_nodes()], "router tables")
         for rt in self.graph.get_rt_nodes():
             routing_table = []
             # Responses are routed by the same tables, so manager-only endpoints need a rule too
@@ -703,6 +724,8 @@ class Network(BaseModel):  # pylint: disable=too-many-public-methods
                 rule_name += "_sam_idx"
                 addr_rule = RouteMapRule(dest=dest, addr_range=addr_range, desc=rule_name)
                 addr_table.append(addr_rule)
+        # The members of the address map index enumeration are the CamelCase names of the rules
+        self.check_identifiers([rule.desc for rule in addr_table], "address map rules")
         return RouteMap(name="sam", rules=addr_table)
 
     def render_ports(self, pkg_name=""):
